@@ -120,10 +120,15 @@ def _c20_2_case(broken):
         from mistral.services import action_heartbeat_checker as hc
         from mistral.db.v2.sqlalchemy import models
         from mistral import context as auth_ctx
+        # batch_size bounds one checker pass; with broken (unprocessable)
+        # actions around, the live ones must still be reached within a
+        # few passes whatever the batch size
+        batch = choice('batch_size', [10, 1, 2]) if broken else 10
         w = World([WF2], is_admin=False,
                   conf={('action_heartbeat', 'check_interval'): 10,
                         ('action_heartbeat', 'max_missed_heartbeats'): 3,
-                        ('action_heartbeat', 'first_heartbeat_timeout'): 60})
+                        ('action_heartbeat', 'first_heartbeat_timeout'): 60,
+                        ('action_heartbeat', 'batch_size'): batch})
         with w:
             wid = w.start('wf')
             # run until both actions are handed to executors, which go
@@ -135,10 +140,14 @@ def _c20_2_case(broken):
                 w.take(e)
             if broken:
                 # an orphan: expired action whose task is gone
-                w.db.put(models.ActionExecution, id='orphan',
-                         name='std.noop', task_execution_id='missing-task',
-                         state='RUNNING', is_sync=True, project_id='proj-a',
-                         last_heartbeat=datetime.datetime(2019, 1, 1))
+                for k in range(batch if batch < 10 else 1):
+                    w.db.put(models.ActionExecution,
+                             id='orphan' if k == 0 else 'orphan%d' % k,
+                             name='std.noop',
+                             task_execution_id='missing-task',
+                             state='RUNNING', is_sync=True,
+                             project_id='proj-a',
+                             last_heartbeat=datetime.datetime(2019, 1, 1))
             late = choice('clock', ['fresh', 'expired'])
             w.clock.advance(20 if late == 'fresh' else 4000)
             # the checker runs under its own administrative context
@@ -147,7 +156,10 @@ def _c20_2_case(broken):
                 user_id=None, project_id=None, auth_token=None,
                 is_admin=True))
             try:
-                hc.handle_expired_actions()
+                # (one pass per live action plus one: enough for any batch
+                # size >= 1 unless the broken ones starve the others)
+                for _ in range(3):
+                    hc.handle_expired_actions()
                 err = None
             except Exception as e:
                 err = e
@@ -158,7 +170,7 @@ def _c20_2_case(broken):
                   {'signature': sig + ':raised', 'error': repr(err)[:200]})
             w.run()
             acts = [a for a in w.rows('ActionExecution')
-                    if a['id'] != 'orphan' and
+                    if not a['id'].startswith('orphan') and
                     a['task_execution_id'] in
                     [t['id'] for t in w.tasks(wid)
                      if t['name'] in ('a', 'b')]]
@@ -280,7 +292,8 @@ def _c20_3_case(preemptions):
                'mistral.engine.actions:RegularAction.complete',
                'mistral.engine.task_handler:schedule_on_action_complete'],
     bounds='two running synchronous actions whose executors go silent, '
-           'optionally a third expired action whose task no longer exists; '
+           'optionally batch_size (10 / 1 / 2, solver choice) older expired '
+           'actions whose task no longer exists; three checker passes; '
            'checker pass before / after the expiry horizon (symbolic); the '
            'genuine results delivered afterwards',
     stubs=['minidb', 'QueueRPC', 'FakeScheduler', 'FakeExecutor',
